@@ -333,10 +333,12 @@ class World:
             self.trace.append("embedded-exc:%s" % type(e).__name__)
 
     # ------------------------------------------------------------------ user code: workers
-    def worker(self, req, name="fn", site=None, swallow=0):
+    def worker(self, req, name="fn", site=None, swallow=0, park=None, park_from=0):
         """Coroutine function whose invocations block on their own gate future.
         swallow > 0: the worker catches its first `swallow` CancelledErrors and carries on waiting (a coroutine
-        that treats the first cancellation as a request and not as an order)."""
+        that treats the first cancellation as a request and not as an order).
+        park: a callable returning an awaitable (e.g. pool.until_closed); invocations number park_from and later of this
+        request wait on *that* instead of their own gate - several tasks suspended in the same library call."""
         w = self
 
         async def fn(*a, **k):
@@ -350,6 +352,8 @@ class World:
             fut = w.loop.create_future()
             rec["gate"] = fut
             rec["wid"] = len(w.W)
+            parked = park is not None and sum(1 for x in w.W if x["req"] == req) >= park_from
+            rec["parked"] = parked
             w.W.append(rec)
             w.live += 1
             if w.live > w.peak:
@@ -389,7 +393,7 @@ class World:
             try:
                 while True:
                     try:
-                        result = await rec["gate"]
+                        result = await (park() if parked else rec["gate"])
                         rec["state"] = "ok"
                         break
                     except asyncio.CancelledError as ce:
